@@ -9,14 +9,19 @@ from visions.types.ip_address import IPAddress
 from visions.types.string import String
 
 
+def _ip_address_or_missing(value):
+    return value if pd.isna(value) else ip_address(value)
+
+
 @IPAddress.register_relationship(String, pd.Series)
+@series_handle_nulls
 def string_is_ip_address(series: pd.Series, state: dict) -> bool:
     return test_utils.coercion_test(lambda s: pandas_apply(s, ip_address))(series)
 
 
 @IPAddress.register_transformer(String, pd.Series)
 def string_to_ip_address(series: pd.Series, state: dict) -> pd.Series:
-    return pandas_apply(series, ip_address)
+    return pandas_apply(series, _ip_address_or_missing)
 
 
 @IPAddress.contains_op.register
